@@ -8,6 +8,9 @@ os.environ.setdefault('PYTHONHASHSEED', '0')
 os.environ.pop('PSIAUDIO_REPO', None)
 import vlib
 vlib.use_repo()
+import fcntl
+_lock = open('work/translator.lock', 'w')
+fcntl.flock(_lock, fcntl.LOCK_EX)      # never rewrite coq/gen under a running translator-tied check
 for c in json.load(open('MANIFEST.json'))['checks']:
     H = importlib.import_module('harness.' + c['property_id'])
     if hasattr(H, 'translate'):
